@@ -1,11 +1,14 @@
 import Agd.Gen.TrC09
+import Agd.Model.Ratelimit
 /-!
-# C09: decision structure of the rate limiter, as translated from the source
+# C09: the rate limiter's logic, as translated from the source
 
-`Agd.Gen.TrC09.*` are regenerated from `internal/dnsserver/ratelimit/{backoff,counter}.go` on every
-run (`extract/tr.go`).  Library calls (`allowlist.IsAllowed`, the go-cache look-ups, `time.Now`) are
-opaque: their results are parameters, and the definitions return the *trace* of opaque calls made, in
-order, with their scalar arguments.  The theorems below are stated on the translated code itself.
+`Agd.Gen.TrC09.*` are regenerated on every run (`extract/tr.go`, `extract/translate/C09.json`) from
+`internal/dnsserver/ratelimit/{backoff,counter,ratelimit}.go`, `internal/dnssvc/internal/ratelimitmw/limit.go`
+and `internal/agd/ratelimit.go`.  Library calls (`allowlist.IsAllowed`, the go-cache look-ups, `time.Now`, the
+next handler, the response writer) are opaque: their results are parameters, and the definitions return the
+*trace* of opaque calls made, in order, with their scalar arguments.  The theorems are stated on the translated
+code itself, or relate it to the hand-written model `Agd.Model.Ratelimit` for all inputs.
 -/
 namespace Agd.Tie.TrC09
 open Agd.Gen.TrC09 Agd.TrPrelude
@@ -60,8 +63,458 @@ theorem counter_add (r : S_ratelimit_RequestCounter) (ts tail : Int) :
     RequestCounter_Add r ts tail = (decide (tail > 0) && decide (ts - tail ≤ r.ivl), [("Push", [toString ts])]) := by
   simp [RequestCounter_Add]
 
+/-! ## Relation to the hand-written model (`Agd.Model.Ratelimit`) -/
+
+/-- `RequestCounter.Add` is the hand model's `ringAdd`, for every ring, interval and stamp: the verdict
+of the translated code, fed with the stamp the ring shows after the push, is the model's verdict; and
+the stamp pushed is the stamp compared. -/
+theorem counter_add_is_ringAdd (r : Agd.Ratelimit.Ring) (ivl ts : Int) :
+    RequestCounter_Add ⟨ivl⟩ ts (r.push ts).current =
+      ((Agd.Ratelimit.ringAdd r ivl ts).2, [("Push", [toString ts])]) := by
+  simp [RequestCounter_Add, Agd.Ratelimit.ringAdd]
+
+/-- `Backoff.isBackoff` is the model's `isBackoff` when the hit cache answers as the model's table
+does (`Get` finds an unexpired entry, `Load` is its value); `count` is unsigned, so `l.count = ↑c.count`. -/
+theorem isBackoff_tr (l : S_ratelimit_Backoff) (c : Agd.Ratelimit.Cfg) (s : Agd.Ratelimit.St)
+    (k : Agd.Ratelimit.Key) (now : Int) (key : String) (p : AbsPtr) (hc : l.count = (c.count : Int)) :
+    (Backoff_isBackoff l key (p, (s.hit.get k now).isSome) (((s.hit.get k now).getD 0 : Nat) : Int)).1
+      = Agd.Ratelimit.isBackoff c s k now := by
+  unfold Backoff_isBackoff Agd.Ratelimit.isBackoff
+  cases h : s.hit.get k now <;> simp [hc]
+
+/-- The look-up happens under the client's key, and the counter is read only when an entry exists. -/
+theorem isBackoff_lookup (l : S_ratelimit_Backoff) (key : String) (p : AbsPtr) (ok : Bool) (n : Int) :
+    (Backoff_isBackoff l key (p, ok) n).2.head? = some ("Get", [key]) ∧
+    ("Load" ∈ names (Backoff_isBackoff l key (p, ok) n).2 ↔ ok = true) ∧
+    (ok = false → (Backoff_isBackoff l key (p, ok) n).1 = false) := by
+  cases ok <;> simp [Backoff_isBackoff, names]
+
+/-- The configuration of the model as the translated `Backoff` structure sees it. -/
+def CfgMatches (l : S_ratelimit_Backoff) (c : Agd.Ratelimit.Cfg) : Prop :=
+  l.refuseANY = c.refuseAny ∧ l.ipv4Count = (c.v4count : Int) ∧ l.ipv4Interval = c.v4ivl ∧
+  l.ipv6Count = (c.v6count : Int) ∧ l.ipv6Interval = c.v6ivl
+
+/-- `(drop, allowlisted)` as the model's verdict. -/
+def verdictOf (drop allowlisted : Bool) : Agd.Ratelimit.Verdict :=
+  if drop then .drop else if allowlisted then .allowlisted else .pass
+
+/-- `Backoff.IsRateLimited` decides as the model's `isRateLimited` does, for every configuration,
+limiter state, time, client and query type, when the opaque calls answer as the model's parts do
+(allowlist, backoff test, request counter; `Is6` is the negation of the model's `is4`; a valid address). -/
+theorem isRateLimited_tr (l : S_ratelimit_Backoff) (c : Agd.Ratelimit.Cfg) (hm : CfgMatches l c)
+    (s : Agd.Ratelimit.St) (now : Int) (a : Agd.Ratelimit.Addr) (qt : Nat) (key : String) :
+    let K := Agd.Ratelimit.subnetKey a c.v4len c.v6len
+    let r := Backoff_IsRateLimited l none (qt : Int) (Agd.Ratelimit.allowed c a, none) key
+      (Agd.Ratelimit.isBackoff c s K now) (!a.is4)
+      (Agd.Ratelimit.hasHitRateLimit c s K (Agd.Ratelimit.famCount c a) (Agd.Ratelimit.famIvl c a) now).2
+    verdictOf r.1 r.2.1 = (Agd.Ratelimit.isRateLimited c s now a qt).2 ∧ r.2.2.1 = none := by
+  obtain ⟨h1, h2, h3, h4, h5⟩ := hm
+  have hq : decide ((qt : Int) = 255) = (qt == Agd.Ratelimit.qtypeANY) := by
+    unfold Agd.Ratelimit.qtypeANY
+    by_cases h : qt = 255
+    · subst h; rfl
+    · have : ¬ ((qt : Int) = 255) := by omega
+      simp [h, this]
+  unfold Backoff_IsRateLimited Agd.Ratelimit.isRateLimited
+  simp only [h1, hq]
+  cases c.refuseAny && qt == Agd.Ratelimit.qtypeANY <;> simp [verdictOf]
+  cases Agd.Ratelimit.allowed c a <;> simp
+  cases Agd.Ratelimit.isBackoff c s (Agd.Ratelimit.subnetKey a c.v4len c.v6len) now <;> simp
+  cases a.is4 <;> simp <;> split <;> simp_all
+
+/-- … and when the request counter is reached it is asked with the model's `famCount` / `famIvl`. -/
+theorem isRateLimited_counts_with_model_limits (l : S_ratelimit_Backoff) (c : Agd.Ratelimit.Cfg)
+    (hm : CfgMatches l c) (a : Agd.Ratelimit.Addr) (qt : Int) (key : String) (hit : Bool)
+    (hany : ¬ (l.refuseANY = true ∧ qt = 255)) :
+    (Backoff_IsRateLimited l none qt (false, none) key false (!a.is4) hit).2.2.2.getLast? =
+      some ("hasHitRateLimit", [key, toString ((Agd.Ratelimit.famCount c a : Nat) : Int),
+        toString (Agd.Ratelimit.famIvl c a)]) := by
+  obtain ⟨h1, h2, h3, h4, h5⟩ := hm
+  have h : (l.refuseANY && decide (qt = 255)) = false := by
+    cases hr : l.refuseANY <;> simp_all
+  cases h4' : a.is4 <;>
+    simp [Backoff_IsRateLimited, h, h4', Agd.Ratelimit.famCount, Agd.Ratelimit.famIvl, h2, h3, h4, h5]
+
+/-! ## `hasHitRateLimit`, `incBackoff`, `subnetKey`, `CountResponses`, `validateAddr` -/
+
+/-- The verdict of `hasHitRateLimit` is the request counter's (`Add`), which is asked exactly once,
+whether the counter was found or freshly made. -/
+theorem hasHit_is_counter_verdict (l : S_ratelimit_Backoff) (key : String) (count ivl : Int) (ok above : Bool)
+    (old new : Option S_ratelimit_RequestCounter) (p : AbsPtr) :
+    let r := Backoff_hasHitRateLimit l key count ivl (p, ok) old above new
+    r.1 = above ∧ (names r.2).count "Add" = 1 := by
+  cases ok <;> cases above <;> simp [Backoff_hasHitRateLimit, names]
+
+/-- A request above the limit is one more backoff hit of the same subnet key; one within the limit is not. -/
+theorem hasHit_incBackoff_iff_above (l : S_ratelimit_Backoff) (key : String) (count ivl : Int) (ok above : Bool)
+    (old new : Option S_ratelimit_RequestCounter) (p : AbsPtr) :
+    let r := Backoff_hasHitRateLimit l key count ivl (p, ok) old above new
+    (("incBackoff", [key]) ∈ r.2 ↔ above = true) ∧ ("incBackoff" ∈ names r.2 ↔ above = true) ∧
+    (above = true → r.2.getLast? = some ("incBackoff", [key])) := by
+  cases ok <;> cases above <;> simp [Backoff_hasHitRateLimit, names]
+
+/-- A subnet without a counter gets a new one with exactly the limit and interval passed in, stored
+under the same key *before* the request is added; an existing counter is reused and not replaced. -/
+theorem hasHit_counter_creation (l : S_ratelimit_Backoff) (key : String) (count ivl : Int) (ok above : Bool)
+    (old new : Option S_ratelimit_RequestCounter) (p : AbsPtr) :
+    let r := Backoff_hasHitRateLimit l key count ivl (p, ok) old above new
+    r.2.head? = some ("Get", [key]) ∧
+    (ok = false → r.2.take 4 = [("Get", [key]), ("NewRequestCounter", [toString count, toString ivl]),
+        ("SetDefault", [key, "_"]), ("Add", ["_"])]) ∧
+    (ok = true → "NewRequestCounter" ∉ names r.2 ∧ "SetDefault" ∉ names r.2) := by
+  cases ok <;> cases above <;> simp [Backoff_hasHitRateLimit, names]
+
+/-- `incBackoff` adds exactly one to the subnet's hit counter, looked up under the same key; the entry is
+(re)stored — with a fresh lifetime — only when none existed. -/
+theorem incBackoff_effects (l : S_ratelimit_Backoff) (key : String) (p : AbsPtr) (ok : Bool) :
+    let tr := Backoff_incBackoff l key (p, ok)
+    tr.head? = some ("Get", [key]) ∧ tr.count ("Add", [toString (1 : Int)]) = 1 ∧ (names tr).count "Add" = 1 ∧
+    (("SetDefault", [key, "_"]) ∈ tr ↔ ok = false) ∧ ("SetDefault" ∈ names tr ↔ ok = false) := by
+  cases ok <;> simp [Backoff_incBackoff, names]
+
+/-- The bucket key is the client's address masked to the key length of *its* family, and the function
+panics exactly when that masking fails. -/
+theorem subnetKey_family_len (l : S_ratelimit_Backoff) (is4 : Bool) (s : String) :
+    Backoff_subnetKey l is4 ((), none) s ((), none) =
+      some (s, [("Prefix", [toString (if is4 then l.ipv4SubnetKeyLen else l.ipv6SubnetKeyLen)])]) := by
+  cases is4 <;> simp [Backoff_subnetKey]
+
+theorem subnetKey_no_panic_iff (l : S_ratelimit_Backoff) (is4 : Bool) (s : String) (e4 e6 : Option String) :
+    Backoff_subnetKey l is4 ((), e4) s ((), e6) ≠ none ↔ (if is4 then e4 else e6) = none := by
+  cases is4 <;> cases e4 <;> cases e6 <;> simp [Backoff_subnetKey]
+
+theorem flatten_replicate_singleton {α} (n : Nat) (e : α) : (List.replicate n [e]).flatten = List.replicate n e := by
+  induction n with
+  | zero => rfl
+  | succ k ih => simp [List.replicate_succ, ih]
+
+theorem wrap64_of_nat (n : Nat) (h : n < 2 ^ 64) : goWrapU 18446744073709551616 (n : Int) = (n : Int) := by
+  apply goWrapU_of_range <;> omega
+
+/-- `CountResponses` counts a response of `len` bytes as `⌊len / est⌋` further events — the model's
+`respWeight` — each a full `IsRateLimited` round; (`est`, `len` unsigned, `len < 2^64`, `est > 0`). -/
+theorem countResponses_weight (l : S_ratelimit_Backoff) (est len : Nat) (he : 0 < est) (hl : len < 2 ^ 64)
+    (hest : l.respSzEst = (est : Int)) :
+    Backoff_CountResponses l (len : Int) =
+      some (List.replicate (Agd.Ratelimit.respWeight est len) ("IsRateLimited", ["_", "_", "_"])) := by
+  have hd : Int.tdiv (len : Int) (est : Int) = ((len / est : Nat) : Int) := by
+    rw [Int.tdiv_eq_ediv_of_nonneg (by omega)]; simp
+  have hz : ¬ ((est : Int) = 0) := by omega
+  simp only [Backoff_CountResponses, wrap64_of_nat len hl, hest, goDiv?, hz, if_false, hd,
+    flatten_replicate_singleton, Agd.Ratelimit.respWeight, Int.toNat_natCast, List.nil_append]
+
+/-- `CountResponses` panics (division by zero) exactly for a zero size estimate — excluded by C20's validator. -/
+theorem countResponses_panics_iff (l : S_ratelimit_Backoff) (len : Int) :
+    Backoff_CountResponses l len = none ↔ l.respSzEst = 0 := by
+  unfold Backoff_CountResponses goDiv?
+  by_cases h : l.respSzEst = 0 <;> simp [h]
+
+/-- Only an invalid (zero) address is refused by `validateAddr`. -/
+theorem validateAddr_ok_iff (valid : Bool) : validateAddr valid = none ↔ valid = true := by
+  cases valid <;> simp [validateAddr]
+
+/-! ## The library middleware `ratelimit.Middleware` (`ratelimit.go`) -/
+
+/-- The protocol gate: limiting applies iff the protocol list is empty or contains the server's protocol
+(the model's `enabled` flag of `serveLib`). -/
+theorem isEnabledForProto_tr (mw : S_ratelimit_Middleware) (si : Option S_dnsserver_ServerInfo) (has : Bool) :
+    Middleware_isEnabledForProto mw si has = (mw.protos.isEmpty || has) := by
+  cases h : mw.protos <;> simp [Middleware_isEnabledForProto, h] <;> omega
+
+/-- Every environment of `mwHandler.ServeDNS`, bundled. -/
+structure LibEnv where
+  nextH : AbsPtr
+  enabled : Bool
+  nextOff : Option String
+  raddr : AbsPtr
+  port : Int
+  lim : Bool × Bool × Option String
+  errf : Option String
+  nextAllow : Option String
+  nw : Option S_dnsserver_NonWriterResponseWriter
+  next : Option String
+  msg : AbsPtr
+  write : Option String
+
+def libServe (mh : S_ratelimit_mwHandler) (e : LibEnv) : Option String × List (String × List String) :=
+  mwHandler_ServeDNS mh e.nextH e.enabled e.nextOff e.raddr () e.port () e.lim e.errf e.nextAllow e.nw e.next e.msg e.write
+
+/-- A protocol that is not rate limited goes straight to the next handler; the limiter is not consulted. -/
+theorem lib_other_proto_passthrough (mh : S_ratelimit_mwHandler) (e : LibEnv) (h : e.enabled = false) :
+    libServe mh e = (e.nextOff, [("ServeDNS", ["_", "_", "_"])]) := by
+  simp [libServe, mwHandler_ServeDNS, h]
+
+/-- A remote address without a port is dropped unanswered before the limiter is consulted. -/
+theorem lib_port_zero_dropped (mh : S_ratelimit_mwHandler) (e : LibEnv) (h : e.enabled = true) (hp : e.port = 0) :
+    libServe mh e = (none, [("OnRateLimited", ["_", "_", "_"])]) := by
+  simp [libServe, mwHandler_ServeDNS, h, hp]
+
+/-- **Dropped without any response**: when the limiter says drop, neither the next handler runs nor is
+anything written or counted; the middleware returns without error. -/
+theorem lib_drop_no_response (mh : S_ratelimit_mwHandler) (e : LibEnv) (h : e.enabled = true) (hp : e.port ≠ 0)
+    (al : Bool) (hl : e.lim = (true, al, none)) :
+    (libServe mh e).1 = none ∧ "ServeDNS" ∉ names (libServe mh e).2 ∧ "WriteMsg" ∉ names (libServe mh e).2 ∧
+      "CountResponses" ∉ names (libServe mh e).2 := by
+  simp [libServe, mwHandler_ServeDNS, h, hp, hl, names]
+
+/-- An allowlisted client is served directly and its response is not counted. -/
+theorem lib_allowlisted_served_uncounted (mh : S_ratelimit_mwHandler) (e : LibEnv) (h : e.enabled = true)
+    (hp : e.port ≠ 0) (hl : e.lim = (false, true, none)) :
+    (libServe mh e).1 = e.nextAllow ∧ "ServeDNS" ∈ names (libServe mh e).2 ∧
+      "CountResponses" ∉ names (libServe mh e).2 := by
+  simp [libServe, mwHandler_ServeDNS, h, hp, hl, names]
+
+/-- A passed query: the limiter is asked first, the next handler runs, its response is weighed
+(`CountResponses`) and then written; the result is the write's. -/
+theorem lib_pass_counted_then_written (mh : S_ratelimit_mwHandler) (e : LibEnv) (h : e.enabled = true)
+    (hp : e.port ≠ 0) (hl : e.lim = (false, false, none)) (hn : e.next = none) (hr : e.msg = true) :
+    (libServe mh e).1 = e.write ∧
+      names (libServe mh e).2 = ["IsRateLimited", "ServeDNS", "CountResponses", "WriteMsg"] := by
+  simp [libServe, mwHandler_ServeDNS, h, hp, hl, hn, hr, names]
+
+/-- Nothing is ever written or counted unless the limiter was asked and said "pass" without error. -/
+theorem lib_write_only_after_pass (mh : S_ratelimit_mwHandler) (e : LibEnv)
+    (hw : "WriteMsg" ∈ names (libServe mh e).2 ∨ "CountResponses" ∈ names (libServe mh e).2) :
+    e.enabled = true ∧ e.port ≠ 0 ∧ e.lim = (false, false, none) ∧
+      (names (libServe mh e).2).head? = some "IsRateLimited" := by
+  obtain ⟨nh, en, no, ra, port, ⟨d, a, er⟩, errf, na, nw, nx, rn, wr⟩ := e
+  revert hw
+  simp only [libServe, mwHandler_ServeDNS]
+  cases en <;> cases d <;> cases a <;> cases er <;> cases nx <;> cases rn <;>
+    by_cases hp : port = 0 <;> simp [hp, names]
+
+/-- What a trace means for the client, in the model's vocabulary. -/
+def effectOf (tr : List (String × List String)) : Agd.Ratelimit.Effect :=
+  if "ServeDNS" ∈ names tr then (if "CountResponses" ∈ names tr then .servedCounted else .servedNoCount)
+  else .dropped
+
+def verdictTuple : Agd.Ratelimit.Verdict → Bool × Bool × Option String
+  | .drop => (true, false, none)
+  | .allowlisted => (false, true, none)
+  | .pass => (false, false, none)
+
+/-- The translated library middleware has the effect of the hand model's `serveLib`, for every
+configuration, state, time, client and response size, when the limiter answers with the model's verdict
+and the next handler produces a response. -/
+theorem lib_effect_is_model (mh : S_ratelimit_mwHandler) (e : LibEnv) (c : Agd.Ratelimit.Cfg)
+    (g : Agd.Ratelimit.St) (now tick : Int) (a : Agd.Ratelimit.Addr) (qt len : Nat)
+    (hl : e.lim = verdictTuple (Agd.Ratelimit.isRateLimited c g now a qt).2)
+    (hn : e.next = none) (hr : e.msg = true) :
+    effectOf (libServe mh e).2 =
+      (Agd.Ratelimit.serveLib c e.enabled (decide (e.port = 0)) g now tick a qt (some len)).2 := by
+  obtain ⟨nh, en, no, ra, port, lim, errf, na, nw, nx, rn, wr⟩ := e
+  simp only at hl hn hr
+  subst hn hr hl
+  unfold Agd.Ratelimit.serveLib Agd.Ratelimit.serveGlobal
+  cases en <;> by_cases hp : port = 0 <;>
+    cases hv : (Agd.Ratelimit.isRateLimited c g now a qt).2 <;>
+    simp [libServe, mwHandler_ServeDNS, effectOf, names, verdictTuple, hp] <;>
+    (split <;> simp_all)
+
+/-! ## Profile limit versus global limit (`ratelimitmw/limit.go`, `agd/ratelimit.go`) -/
+
+/-- A protocol outside the limited set is served directly: neither limiter is consulted. -/
+theorem mw_other_proto_passthrough (mw : S_ratelimitmw_Middleware) (ri : Option S_agd_RequestInfo) (nx : Option String)
+    (p : Bool × Option String) (ef g : Option String) :
+    serveWithRatelimiting mw ri false nx p ef g = (nx, [("ServeDNS", ["_", "_", "_"])]) := by
+  simp [serveWithRatelimiting]
+
+/-- The profile's limiter is consulted first; the global one is consulted afterwards **iff** the profile
+flow neither failed nor handled the query (`shouldReturn = false`). -/
+theorem mw_profile_first_global_iff (mw : S_ratelimitmw_Middleware) (ri : Option S_agd_RequestInfo) (nx : Option String)
+    (ret : Bool) (perr ef g : Option String) :
+    let r := serveWithRatelimiting mw ri true nx (ret, perr) ef g
+    (names r.2).head? = some "serveWithProfileRatelimiting" ∧ "ServeDNS" ∉ names r.2 ∧
+    ("serveWithGlobalRatelimiting" ∈ names r.2 ↔ (ret = false ∧ perr = none)) ∧
+    (ret = false → perr = none → r.1 = g) ∧ (ret = true → perr = none → r.1 = none) := by
+  cases ret <;> cases perr <;> simp [serveWithRatelimiting, names]
+
+/-- Every environment of `serveWithProfileRatelimiting`, bundled. -/
+structure ProfEnv where
+  dev : Option S_agd_Profile × Option S_agd_Device
+  check : Int
+  nw : Option S_dnsserver_NonWriterResponseWriter
+  next : Option String
+  errf1 : Option String
+  msg : AbsPtr
+  write : Option String
+  errf2 : Option String
+
+def profServe (mw : S_ratelimitmw_Middleware) (ri : Option S_agd_RequestInfo) (e : ProfEnv) :=
+  serveWithProfileRatelimiting mw ri e.dev e.check e.nw e.next e.errf1 e.msg e.write e.errf2
+
+/-- The values of `agd.RatelimitResult` as the source defines them (`iota + 1`). -/
+def resPass : Int := 1
+def resDrop : Int := 2
+def resUseGlobal : Int := 3
+
+/-- Without a profile the query is left to the global limiter and nothing else happens. -/
+theorem prof_none_uses_global (mw : S_ratelimitmw_Middleware) (ri : Option S_agd_RequestInfo) (e : ProfEnv)
+    (h : e.dev.1 = none) : profServe mw ri e = some (false, none, []) := by
+  simp [profServe, serveWithProfileRatelimiting, h]
+
+/-- The profile's limiter says drop: the query is finished (`shouldReturn`, so the global limiter is not
+asked either) and nothing is served, counted or written. -/
+theorem prof_drop_no_response (mw : S_ratelimitmw_Middleware) (ri : Option S_agd_RequestInfo) (e : ProfEnv)
+    (h : e.dev.1 ≠ none) (hc : e.check = resDrop) :
+    ∃ tr, profServe mw ri e = some (true, none, tr) ∧ names tr = ["Ratelimiter.Check", "metrics.IncrementRatelimitedByProfile"] := by
+  cases hd : e.dev.1 with
+  | none => exact absurd hd h
+  | some p => simp [profServe, serveWithProfileRatelimiting, hd, hc, resDrop, names]
+
+/-- The profile's limiter does not apply to this client (`UseGlobal`): the decision is left to the global
+limiter, and the profile flow has neither served nor counted anything. -/
+theorem prof_useGlobal_defers (mw : S_ratelimitmw_Middleware) (ri : Option S_agd_RequestInfo) (e : ProfEnv)
+    (h : e.dev.1 ≠ none) (hc : e.check = resUseGlobal) :
+    profServe mw ri e = some (false, none, [("Ratelimiter.Check", ["_", "_", "_"])]) := by
+  cases hd : e.dev.1 with
+  | none => exact absurd hd h
+  | some p => simp [profServe, serveWithProfileRatelimiting, hd, hc, resUseGlobal]
+
+/-- The profile's own limit applies **instead of** the global one: on `Pass` the response is weighed on
+the *profile's* limiter (`prof.Ratelimiter`), written, and the query is finished without the global limiter. -/
+theorem prof_pass_counts_on_profile_limiter (mw : S_ratelimitmw_Middleware) (ri : Option S_agd_RequestInfo) (e : ProfEnv)
+    (h : e.dev.1 ≠ none) (hc : e.check = resPass) (hn : e.next = none) (hr : e.msg = true) (hw : e.write = none) :
+    ∃ tr, profServe mw ri e = some (true, none, tr) ∧
+      names tr = ["Ratelimiter.Check", "next.ServeDNS", "Ratelimiter.CountResponses", "rw.WriteMsg"] := by
+  cases hd : e.dev.1 with
+  | none => exact absurd hd h
+  | some p => simp [profServe, serveWithProfileRatelimiting, hd, hc, resPass, hn, hr, hw, names]
+
+/-- The profile flow panics exactly on a result outside the three enum values. -/
+theorem prof_no_panic_iff (mw : S_ratelimitmw_Middleware) (ri : Option S_agd_RequestInfo) (e : ProfEnv) :
+    profServe mw ri e ≠ none ↔ (e.dev.1 = none ∨ e.check = resPass ∨ e.check = resDrop ∨ e.check = resUseGlobal) := by
+  obtain ⟨⟨p, d⟩, ck, nw, nx, e1, rn, wr, e2⟩ := e
+  simp only [profServe, serveWithProfileRatelimiting, resPass, resDrop, resUseGlobal]
+  cases p with
+  | none => simp
+  | some p =>
+    by_cases h2 : ck = 2
+    · simp [h2]
+    · by_cases h3 : ck = 3
+      · simp [h3]
+      · by_cases h1 : ck = 1
+        · cases nx <;> cases rn <;> cases wr <;> simp [h1]
+        · simp [h1, h2, h3]
+
+/-- Whenever the profile flow hands the query on (`shouldReturn = false`), it has not called the next
+handler, counted or written anything — so a query is never served twice. -/
+theorem prof_handoff_is_clean (mw : S_ratelimitmw_Middleware) (ri : Option S_agd_RequestInfo) (e : ProfEnv)
+    (er : Option String) (tr : List (String × List String)) (h : profServe mw ri e = some (false, er, tr)) :
+    er = none ∧ "next.ServeDNS" ∉ names tr ∧ "rw.WriteMsg" ∉ names tr ∧ "Ratelimiter.CountResponses" ∉ names tr := by
+  obtain ⟨⟨p, d⟩, ck, nw, nx, e1, rn, wr, e2⟩ := e
+  simp only [profServe, serveWithProfileRatelimiting] at h
+  cases p with
+  | none => simp at h; obtain ⟨rfl, rfl⟩ := h; simp [names]
+  | some p =>
+    by_cases h2 : ck = 2
+    · simp [h2] at h
+    · by_cases h3 : ck = 3
+      · simp [h3] at h; obtain ⟨rfl, rfl⟩ := h; simp [names]
+      · by_cases h1 : ck = 1
+        · cases nx <;> cases rn <;> cases wr <;> simp [h1] at h
+        · simp [h1, h2, h3] at h
+
+/-- A profile without a custom limit (`GlobalRatelimiter`) always answers `UseGlobal`. -/
+theorem globalRatelimiter_always_useGlobal (x : S_agd_GlobalRatelimiter) : GlobalRatelimiter_Check x = resUseGlobal := by
+  simp [GlobalRatelimiter_Check, resUseGlobal]
+
+def presCode : Agd.Ratelimit.PRes → Int
+  | .pass => resPass
+  | .drop => resDrop
+  | .useGlobal => resUseGlobal
+
+/-- `DefaultRatelimiter.Check` is the hand model's `ProfLim.check`, for every limiter state, time and
+client, when the subnet set and the request counter answer as the model's do. -/
+theorem profile_check_tr (r : S_agd_DefaultRatelimiter) (p : Agd.Ratelimit.ProfLim) (now : Int) (a : Agd.Ratelimit.Addr) :
+    (DefaultRatelimiter_Check r (p.subnets.length : Int) (p.subnets.any (fun s => s.contains a)) (p.ctr.add now).2).1 =
+      presCode (p.check now a).2 := by
+  have hl : decide ((p.subnets.length : Int) > 0) = !p.subnets.isEmpty := by
+    cases p.subnets <;> simp <;> omega
+  unfold DefaultRatelimiter_Check Agd.Ratelimit.ProfLim.check
+  rw [hl]
+  generalize p.subnets.any (fun s => s.contains a) = inSet
+  generalize p.subnets.isEmpty = emp
+  cases emp <;> cases inSet <;> cases hab : (p.ctr.add now).2 <;>
+    simp [presCode, resPass, resDrop, resUseGlobal, hab]
+
+/-- A client outside the profile's subnets is not counted against the profile's limit; everyone else is
+counted exactly once per check. -/
+theorem profile_check_counts_iff (r : S_agd_DefaultRatelimiter) (n : Int) (inSet above : Bool) :
+    let res := DefaultRatelimiter_Check r n inSet above
+    ((names res.2).count "Add" = if (decide (n > 0) && !inSet) then 0 else 1) ∧
+    (res.1 = resUseGlobal ↔ (n > 0 ∧ inSet = false)) ∧ (res.1 = resDrop → above = true) := by
+  by_cases hn : n > 0 <;> cases inSet <;> cases above <;>
+    simp [DefaultRatelimiter_Check, names, hn, resUseGlobal, resDrop]
+
+/-- The profile limiter weighs a response as `⌊len / est⌋` further checks, like the global one. -/
+theorem profile_countResponses_weight (r : S_agd_DefaultRatelimiter) (est len : Nat) (he : 0 < est) (hl : len < 2 ^ 64)
+    (hest : r.respSzEst = (est : Int)) :
+    DefaultRatelimiter_CountResponses r (len : Int) =
+      some (List.replicate (Agd.Ratelimit.respWeight est len) ("Check", ["_", "_", "_"])) := by
+  have hd : Int.tdiv (len : Int) (est : Int) = ((len / est : Nat) : Int) := by
+    rw [Int.tdiv_eq_ediv_of_nonneg (by omega)]; simp
+  have hz : ¬ ((est : Int) = 0) := by omega
+  simp only [DefaultRatelimiter_CountResponses, wrap64_of_nat len hl, hest, goDiv?, hz, if_false, hd,
+    flatten_replicate_singleton, Agd.Ratelimit.respWeight, Int.toNat_natCast, List.nil_append]
+
+/-- Every environment of `serveWithGlobalRatelimiting`, bundled. -/
+structure GlobEnv where
+  lim : Bool × Bool × Option String
+  errf : Option String
+  nextAllow : Option String
+  nw : Option S_dnsserver_NonWriterResponseWriter
+  next : Option String
+  msg : AbsPtr
+  write : Option String
+
+def globServe (mw : S_ratelimitmw_Middleware) (ri : Option S_agd_RequestInfo) (e : GlobEnv) :=
+  serveWithGlobalRatelimiting mw ri e.lim e.errf e.nextAllow e.nw e.next e.msg e.write
+
+/-- Global flow, dropped: no response, nothing served or counted. -/
+theorem glob_drop_no_response (mw : S_ratelimitmw_Middleware) (ri : Option S_agd_RequestInfo) (e : GlobEnv) (al : Bool)
+    (hl : e.lim = (true, al, none)) :
+    (globServe mw ri e).1 = none ∧
+      names (globServe mw ri e).2 = ["limiter.IsRateLimited", "metrics.OnRateLimited"] := by
+  simp [globServe, serveWithGlobalRatelimiting, hl, names]
+
+/-- Global flow, allowlisted: served directly, not counted. -/
+theorem glob_allowlisted_served_uncounted (mw : S_ratelimitmw_Middleware) (ri : Option S_agd_RequestInfo) (e : GlobEnv)
+    (hl : e.lim = (false, true, none)) :
+    (globServe mw ri e).1 = e.nextAllow ∧ "next.ServeDNS" ∈ names (globServe mw ri e).2 ∧
+      "limiter.CountResponses" ∉ names (globServe mw ri e).2 := by
+  simp [globServe, serveWithGlobalRatelimiting, hl, names]
+
+/-- Global flow, passed: asked, served into a buffer, weighed on the *global* limiter, then written. -/
+theorem glob_pass_counted_then_written (mw : S_ratelimitmw_Middleware) (ri : Option S_agd_RequestInfo) (e : GlobEnv)
+    (hl : e.lim = (false, false, none)) (hn : e.next = none) (hr : e.msg = true) :
+    (globServe mw ri e).1 = e.write ∧ names (globServe mw ri e).2 =
+      ["limiter.IsRateLimited", "next.ServeDNS", "limiter.CountResponses", "rw.WriteMsg"] := by
+  simp [globServe, serveWithGlobalRatelimiting, hl, hn, hr, names]
+
 example : (Backoff_IsRateLimited ⟨1024, 1000, 300, 10, 24, 3000, 10, 48, true⟩ none 1 (false, none) "k" false true true).1 = true := by
   decide
+
+/-! ## Non-vacuity of the hypotheses -/
+
+example : CfgMatches ⟨1024, 1000, 300, 10, 24, 3000, 10, 48, true⟩
+    { count := 1000, period := 60, duration := 60, est := 1024, v4count := 300, v4ivl := 10, v4len := 24,
+      v6count := 3000, v6ivl := 10, v6len := 48, refuseAny := true, allow := [] } := by
+  simp [CfgMatches]
+
+example : Backoff_CountResponses ⟨1024, 1000, 300, 10, 24, 3000, 10, 48, true⟩ 3000 =
+    some [("IsRateLimited", ["_", "_", "_"]), ("IsRateLimited", ["_", "_", "_"])] := by
+  have h := countResponses_weight ⟨1024, 1000, 300, 10, 24, 3000, 10, 48, true⟩ 1024 3000 (by omega) (by omega) rfl
+  simpa [Agd.Ratelimit.respWeight] using h
+
+example : (Backoff_hasHitRateLimit ⟨1024, 1000, 300, 10, 24, 3000, 10, 48, true⟩ "1.2.3.0/24" 300 10 (false, false) none true none).2
+    = [("Get", ["1.2.3.0/24"]), ("NewRequestCounter", ["300", "10"]), ("SetDefault", ["1.2.3.0/24", "_"]), ("Add", ["_"]),
+       ("incBackoff", ["1.2.3.0/24"])] := by decide
+
+example : (libServe ⟨none⟩ ⟨true, true, none, true, 53, (true, false, none), none, none, none, none, true, none⟩) =
+    (none, [("IsRateLimited", ["_", "_", "_"]), ("OnRateLimited", ["_", "_", "_"])]) := by decide
+
+example : DefaultRatelimiter_Check ⟨none, 1024, 5⟩ 2 false true = (resUseGlobal, []) := by decide
 
 end Agd.Tie.TrC09
 
@@ -71,3 +524,42 @@ end Agd.Tie.TrC09
 #print axioms Agd.Tie.TrC09.refuse_any_for_everyone
 #print axioms Agd.Tie.TrC09.counted_with_family_limits
 #print axioms Agd.Tie.TrC09.counter_add
+#print axioms Agd.Tie.TrC09.counter_add_is_ringAdd
+#print axioms Agd.Tie.TrC09.isBackoff_tr
+#print axioms Agd.Tie.TrC09.isBackoff_lookup
+#print axioms Agd.Tie.TrC09.isRateLimited_tr
+#print axioms Agd.Tie.TrC09.isRateLimited_counts_with_model_limits
+#print axioms Agd.Tie.TrC09.hasHit_is_counter_verdict
+#print axioms Agd.Tie.TrC09.hasHit_incBackoff_iff_above
+#print axioms Agd.Tie.TrC09.hasHit_counter_creation
+#print axioms Agd.Tie.TrC09.incBackoff_effects
+#print axioms Agd.Tie.TrC09.subnetKey_family_len
+#print axioms Agd.Tie.TrC09.subnetKey_no_panic_iff
+#print axioms Agd.Tie.TrC09.flatten_replicate_singleton
+#print axioms Agd.Tie.TrC09.wrap64_of_nat
+#print axioms Agd.Tie.TrC09.countResponses_weight
+#print axioms Agd.Tie.TrC09.countResponses_panics_iff
+#print axioms Agd.Tie.TrC09.validateAddr_ok_iff
+#print axioms Agd.Tie.TrC09.isEnabledForProto_tr
+#print axioms Agd.Tie.TrC09.lib_other_proto_passthrough
+#print axioms Agd.Tie.TrC09.lib_port_zero_dropped
+#print axioms Agd.Tie.TrC09.lib_drop_no_response
+#print axioms Agd.Tie.TrC09.lib_allowlisted_served_uncounted
+#print axioms Agd.Tie.TrC09.lib_pass_counted_then_written
+#print axioms Agd.Tie.TrC09.lib_write_only_after_pass
+#print axioms Agd.Tie.TrC09.lib_effect_is_model
+#print axioms Agd.Tie.TrC09.mw_other_proto_passthrough
+#print axioms Agd.Tie.TrC09.mw_profile_first_global_iff
+#print axioms Agd.Tie.TrC09.prof_none_uses_global
+#print axioms Agd.Tie.TrC09.prof_drop_no_response
+#print axioms Agd.Tie.TrC09.prof_useGlobal_defers
+#print axioms Agd.Tie.TrC09.prof_pass_counts_on_profile_limiter
+#print axioms Agd.Tie.TrC09.prof_no_panic_iff
+#print axioms Agd.Tie.TrC09.prof_handoff_is_clean
+#print axioms Agd.Tie.TrC09.globalRatelimiter_always_useGlobal
+#print axioms Agd.Tie.TrC09.profile_check_tr
+#print axioms Agd.Tie.TrC09.profile_check_counts_iff
+#print axioms Agd.Tie.TrC09.profile_countResponses_weight
+#print axioms Agd.Tie.TrC09.glob_drop_no_response
+#print axioms Agd.Tie.TrC09.glob_allowlisted_served_uncounted
+#print axioms Agd.Tie.TrC09.glob_pass_counted_then_written
